@@ -25,6 +25,9 @@ CHECKS["C08"] = ("reference-model monitor over generated dynamic-array / string 
 CHECKS["C09"] = ("relational monitor over pairs (generated program, meaning-preserving rewrite: literal->call, subexpression->local, let->const, wrap in if true) compiled and run natively (thorough: also wasm); the reference interpreter is a third witness naming the wrong side",
  "Held on N pairs with >=1 rewrite applied: base and variant were both accepted and printed identical output with the same termination; the evidence lists how many rewrites of each kind were exercised.",
  "fixed-array index literals and match patterns are not rewritten; expressions that can panic or have side effects are never moved", "DESIGN.md §3 C09")
+CHECKS["C03"] = ("verdict monitor by construction over the real type checker (in-process pool + CLI confirmation): generated well-typed base programs accepted by the compiler, mutated by injecting exactly one violation from a 17-rule catalogue (plain spellings and the same violation nested in 22 expression contexts) at a random site of a random statement context; native build sample observes that no executable is left",
+ "Held on N mutants (14 or 400 base programs x 17 rule classes, spellings rotating over about 200 snippets, sites drawn from main/function/method/closure/if/else/while/for/match-arm/block): every base was accepted and every mutant was rejected with exit 1 and at least one error diagnostic, no crash; the sampled native builds left no executable.",
+ "catalogue and contexts are the rig's reading of the property's list; snippets are self-contained so the violated rule is known by construction", "DESIGN.md §3 C03")
 CHECKS["C05"] = ("verdict monitor (reference path analysis -> MUST_REJECT / MUST_ACCEPT / MAY with a trailing-return control group) over the real type checker via the in-process pool with CLI confirmation, plus reference-model monitor: every accepted function/method/closure is executed natively over an argument grid and compared with the reference interpreter, which detects falling off the end",
  "Held on N generated bodies (nested if/else-if/else, int and enum match with/without default, while/for with break/continue, early returns; as functions, methods and function literals): every body with a syntactic path to its end was rejected while the same body with a trailing return was accepted; every all-paths-return body was accepted; every accepted callable returned, for all 25 grid argument tuples, exactly the value of the return statement the reference interpreter executes.",
  "conditions opaque; exhaustive enum matches without default are MAY; statements after a return are not generated", "DESIGN.md §3 C05")
@@ -52,6 +55,9 @@ CHECKS["C14"] = ("relational monitor across repeated compilations of generated m
 CHECKS["C15"] = ("verdict monitor by construction over projects generated from digraphs (all 512 on 3 modules + sampled larger) compiled by hook-perturbed workers and the ferret-verif CLI under varied GOMAXPROCS/VERIF_SCHED, native run of every DAG against an arithmetic oracle; offline exactly-once checker over the parse event log; porcupine linearizability check of concurrent AddDependency histories recorded at the client boundary",
  "Held on all 512 digraphs over 3 non-entry modules (exhaustive for that size) and sampled digraphs on 4-6 modules: every cyclic project (self-loops included) failed with a circular-import error and exit 1 without hanging, every DAG compiled under each schedule, its executable printed id+sum-of-dependencies for every module, each module was parsed exactly once; N concurrent AddDependency histories were linearizable w.r.t. 'reject iff imported reaches importer, else insert' and the final graph equalled the accepted edges.",
  "schedules sampled not enumerated; graphs with >3 modules sampled; porcupine timeouts are inconclusive", "DESIGN.md §3 C15")
+CHECKS["C18"] = ("invariant monitor over the compiler's own DataLayout (verif hook, in-process) for random type expressions at pointer sizes 4 and 8, plus reference-model monitor over generated composite programs (full-width sentinels in every leaf, single-leaf overwrites, copies, by-value calls, optional some/none, canaries) run natively and on wasm",
+ "Held on N type expressions x 2 pointer sizes (no overlapping or out-of-bounds field, offsets aligned, size multiple of alignment, array stride = element size, optional flag and result discriminant inside the value) and on M generated programs in which every leaf, after every overwrite/copy/call/optional wrap, read back exactly its sentinel while all other leaves and the canary locals stayed unchanged.",
+ "results with aggregate payloads are rejected by the native back end today and therefore not in the dynamic part; optionals and 128/256-bit leaves run natively only", "DESIGN.md §3 C18")
 CHECKS["C16"] = ("reference-model monitor: math/big oracle over the exported C API of bigint.c (value and _ptr forms) behind a clang ASan+UBSan driver, limb-boundary-weighted operand workload",
  "Held on N calls: every exported ferret_{i,u}{128,256}_* operation (add, sub, mul, div, mod, comparisons, and/or/xor/not, shl/shr, pow, 64-bit conversions, decimal/hex/octal/binary text conversion) returned the math/big result reduced mod 2^N on every generated operand pair, in both calling forms, without a sanitizer report. Exploration over a 2^256 space: strength comes from boundary weighting (limb edges, sign boundaries, borrow/carry chains), not enumeration.",
  "trusts math/big and the hex transport of the driver; division by zero, negative shifts/exponents are out of the property's domain", "DESIGN.md §3 C16")
